@@ -10,7 +10,12 @@ verdict) are handed to the Lean reference model `Api.step`; status, `__type`, bo
 contents after the call and the published start event are compared.  The laws the property
 states outright (an error answer leaves the stores as they were; no 5xx) are also evaluated on
 the implementation alone.  Engine deliveries (real `StateEngine.notify` of a recorded start
-event) are environment steps: they populate the executions store the List/Describe actions read.
+event) are environment steps: they populate the executions store and the event logs the
+List/Describe/GetExecutionHistory actions read; `write` steps put arbitrary execution records and logs
+(all five statuses, records whose machine is gone or malformed) there directly.  StartSyncExecution is run
+to its answer inside the request: the harness either lets the real engine run the published events until
+the awaited future resolves, or fires the registered timer (408).  SendTaskSuccess / SendTaskFailure
+(C15's subject) are sent with string arguments only and judged by the two stated laws alone.
 """
 import asyncio, copy, json, logging, os, shutil, tempfile, types
 import time as real_time
@@ -19,7 +24,12 @@ from common import cj, pj
 
 ACTIONS = ["CreateStateMachine", "UpdateStateMachine", "DeleteStateMachine", "DescribeStateMachine",
            "DescribeStateMachineForExecution", "ListStateMachines", "StartExecution",
-           "DescribeExecution", "ListExecutions"]
+           "DescribeExecution", "ListExecutions", "GetExecutionHistory", "StartSyncExecution"]
+LAW_ONLY = ["SendTaskSuccess", "SendTaskFailure"]     # no reference model here (C15 has one)
+READS = ["DescribeStateMachine", "DescribeStateMachineForExecution", "ListStateMachines", "ListExecutions",
+         "DescribeExecution", "GetExecutionHistory"]
+# finding id -> switch of Api.Quirks that reproduces it (the model runs with the switches of the open findings)
+OPEN_QUIRK = {"C10-F5": "createUncheckedArn"}
 CT = "application/x-amz-json-1.0"
 
 # --------------------------------------------------------------------------- pools
@@ -28,8 +38,10 @@ NAMES = ["m1", "m1-v2", "m"]        # prefixes of one another: listing by machin
 BAD_NAMES = ["", "a b", "x/y", "n" * 81, "a:b", "q?", "a\n:", "a:b\nc", "tail\n", "semi;colon", 5, None,
              True, ["m1"], {"n": 1}]
 ACCOUNTS = ["0123456789", "42"]
+LONG_ACCOUNT = "7" * 230             # a role ARN of 250 characters is accepted; the machine ARN formed from it has 266+
 ROLES = ["arn:aws:iam::0123456789:role/r", "arn:aws:iam::0123456789:role/service-role/MyRole",
-         "arn:aws:iam::42:role/x", "arn:aws:iam::0123456789:role/r\n"]
+         "arn:aws:iam::42:role/x", "arn:aws:iam::0123456789:role/r\n",
+         "arn:aws:iam::%s:role/r" % LONG_ACCOUNT]
 BAD_ROLES = ["", "arn:aws:iam::abc:role/x", "arn:aws:iam::1:role/", "arn:aws:iam:1:role/x", "junk",
              "arn:aws:iam::12:role/" + "x" * 240, "arn:aws:iam::1:role/a\nb", 7, None, False, ["r"], {"a": 1}, 0]
 EXEC_NAMES = ["e1", "e2"]
@@ -45,6 +57,9 @@ DEFS_OK = [
 DEF_TEXT_ODD = ["{\"a\": 1}", "[1]", "7", "\"text\"", " {\"StartAt\":\"S\",\"States\":{\"S\":{\"Type\":\"Succeed\"}}} ",
                 "{\"StartAt\": \"X\", \"States\": {}}", "true"]
 DEF_TEXT_FALSY = ["0", "{}", "[]", "null", "\"\"", "false"]
+# a repeated member name: read with dict semantics (last wins) — refused when validate_asl reads with raise_on_duplicates
+DEF_TEXT_DUP = ["{\"StartAt\": \"X\", \"StartAt\": \"S\", \"States\": {\"S\": {\"Type\": \"Succeed\"}}}",
+                "{\"StartAt\": \"S\", \"States\": {\"S\": {\"Type\": \"Pass\", \"End\": true, \"Result\": {\"a\": 1, \"a\": 2}}}}"]
 DEF_TEXT_BAD = ["{bad", "", "[1,", "nul", "{\"a\":}", "'x'", "{\"a\": 1} x"]
 DEF_NONSTR = [5, [1], {"StartAt": "S"}, None, True, 0, [], {}, False]
 
@@ -70,6 +85,10 @@ INPUT_OK = ["{}", "{\"a\": 1}", "[1, 2]", "5", "\"s\"", "null", "{\"Error\": \"x
 INPUT_BAD = ["{bad", "", "[1,", "{\"a\": 1} x", 5, None, [1], {"a": 1}, True, 0, False, []]
 FILTERS = ["RUNNING", "SUCCEEDED", "FAILED", "TIMED_OUT", "ABORTED"]
 BAD_FILTERS = ["BAD", "", "running", None, 0, 5, False, True, ["RUNNING"], [], {"a": 1}, {}]
+TRUTHY = [True, 1, "x", "false", [0], {"a": 0}, -1]      # `if reverse_order:` is Python truthiness of any JSON value
+FALSY = [False, 0, "", None, [], {}]
+PAGING = [1, 1, 0, 2, 1000, -1, "5", "1", None, True, [1], {"a": 1}, "", "tok", "eyJhIjoxfQ=="]
+STATUSES = ["RUNNING", "SUCCEEDED", "FAILED", "TIMED_OUT", "ABORTED"]
 RAW_BODIES = ["[1]", "5", "\"x\"", "null", "true", "{bad", "", "[]", "{\"stateMachineArn\": ", "hex:ff", "hex:c328"]
 BAD_ACTIONS = ["Nope", "InvalidAction", "", "createStateMachine", "StopExecution", "__class__"]
 
@@ -84,10 +103,33 @@ def ex_arn(acct, mname, ename):
 
 # --------------------------------------------------------------------------- generator
 
+def task_token(corr="t1.waitForTaskToken", queue="asl_workflow_reply_to_x"):
+    import base64
+    return base64.b64encode(("%s:%s" % (corr, queue)).encode()).decode()
+
+
+SEND_TOKENS_BAD = ["junk", "", "!!!", task_token("t1", "asl_workflow_reply_to_x"), task_token(queue="other_queue"),
+                   task_token() + ":x", "eA=="]
+
+WEIGHTS = [("CreateStateMachine", 12), ("UpdateStateMachine", 13), ("DeleteStateMachine", 5),
+           ("DescribeStateMachine", 7), ("DescribeStateMachineForExecution", 6), ("ListStateMachines", 5),
+           ("StartExecution", 12), ("StartSyncExecution", 7), ("deliver", 11), ("write", 4),
+           ("ListExecutions", 9), ("DescribeExecution", 7), ("GetExecutionHistory", 9), ("SendTask", 2)]
+EXEC_READS = ["DescribeStateMachineForExecution", "ListExecutions", "DescribeExecution", "GetExecutionHistory",
+              "GetExecutionHistory"]
+
+
 class Gen:
     def __init__(self, rng, p_bad=0.10):
         self.rng, self.p_bad = rng, p_bad
-        self.live, self.execs = [], []
+        self.live, self.execs, self.express, self.logs = [], [], [], []
+
+    def see(self, snap):
+        """the runner tells the generator what exists right now"""
+        self.live = sorted(snap["machines"])
+        self.express = sorted(k for k, v in snap["machines"].items() if v.get("type") == "EXPRESS")
+        self.execs = sorted(snap["executions"])
+        self.logs = sorted(k for k, v in snap["histories"].items() if v)
 
     def bad(self):
         return self.rng.random() < self.p_bad
@@ -107,60 +149,141 @@ class Gen:
         d[key] = good() if callable(good) else good
         return "ok"
 
-    def sm(self):
-        """mostly a machine that exists right now (the runner tells the generator what exists)"""
+    def sm(self, express=False):
+        """mostly a machine that exists right now"""
+        if express and self.express and self.rng.random() < 0.8:
+            return self.rng.choice(self.express)
         if self.live and self.rng.random() < 0.8:
             return self.rng.choice(self.live)
         return sm_arn(self.acct(), self.rng.choice(NAMES))
 
-    def exarn(self, nstarts):
+    def exarn(self, nstarts, logs=False):
         r = self.rng
-        if self.execs and r.random() < 0.75:
-            return r.choice(self.execs)
+        pool = self.logs if (logs and self.logs and r.random() < 0.7) else self.execs
+        if pool and r.random() < 0.75:
+            return r.choice(pool)
         names = EXEC_NAMES + ["uuid-%d" % i for i in range(nstarts)]
         return ex_arn(self.acct(), r.choice(NAMES), r.choice(names))
 
     def definition(self):
         r = self.rng.random()
-        if r < 0.80:
+        if r < 0.78:
             d = self.rng.choice(DEFS_OK)
             return json.dumps(d) if self.rng.random() < 0.8 else pj(d)
-        if r < 0.90:
+        if r < 0.87:
             return self.rng.choice(DEF_TEXT_ODD)
+        if r < 0.92:
+            return self.rng.choice(DEF_TEXT_DUP)
         return self.rng.choice(DEF_TEXT_FALSY)
 
     def role(self):
         r = self.rng.random()
         return ROLES[0] if r < 0.7 else self.rng.choice(ROLES)
 
+    def paging(self, body, tags):
+        """`maxResults` / `nextToken`: neither front end reads them — any JSON value must be harmless"""
+        r = self.rng
+        if r.random() < 0.35:
+            body["maxResults"] = copy.deepcopy(r.choice(PAGING))
+            tags.append("maxResults=" + type(body["maxResults"]).__name__)
+        if r.random() < 0.25:
+            body["nextToken"] = copy.deepcopy(r.choice(PAGING))
+            tags.append("nextToken=" + type(body["nextToken"]).__name__)
+
+    def record(self, arn):
+        """an execution record as the engine writes them, with any of the five statuses"""
+        r = self.rng
+        status = r.choice(STATUSES)
+        x = r.random()
+        if x < 0.75 and self.live:
+            sm = r.choice(self.live)
+        elif x < 0.9:
+            sm = sm_arn(self.acct(), r.choice(NAMES))
+        else:
+            sm = r.choice(["junk", "", "arn:aws:states:local:0123456789:stateMachine:"])
+        rec = {"executionArn": arn, "input": "{}", "name": arn.rsplit(":", 1)[-1], "output": None,
+               "startDate": 900 + r.randrange(50), "stateMachineArn": sm, "status": status,
+               "stopDate": None if status == "RUNNING" else 950 + r.randrange(50)}
+        if status == "SUCCEEDED":
+            rec["output"] = r.choice(["{}", "[1]", "\"s\""])
+        if status in ("FAILED", "TIMED_OUT") and r.random() < 0.7:
+            rec["error"], rec["cause"] = r.choice(["E", "States.Timeout"]), r.choice(["c", None])
+        return rec
+
+    def log(self):
+        r = self.rng
+        n = r.choice([0, 1, 2, 3, 3, 4, 6])
+        types = ["ExecutionStarted", "PassStateEntered", "PassStateExited", "TaskStateEntered", "ExecutionSucceeded",
+                 "ExecutionFailed"]
+        return [{"timestamp": 900 + i, "type": r.choice(types), "id": i + 1, "previousEventId": i,
+                 "stateEnteredEventDetails": {"name": "S", "input": "{}"}} for i in range(n)]
+
+    def pick(self, i, n, npending):
+        r = self.rng
+        early = i < max(2, n // 4)
+        if not self.live and r.random() < 0.75:
+            return "CreateStateMachine"
+        if npending and r.random() < 0.25:
+            return "deliver"
+        if (self.execs or self.logs) and r.random() < 0.30:
+            return r.choice(EXEC_READS)
+        ws = [(a, (50 if (early and a == "CreateStateMachine") else w)) for a, w in WEIGHTS]
+        tot = sum(w for _, w in ws)
+        x = r.random() * tot
+        for a, w in ws:
+            x -= w
+            if x < 0:
+                break
+        if a in EXEC_READS and not (self.execs or self.logs) and r.random() < 0.6:
+            a = "StartExecution"
+        if a == "StartSyncExecution" and not self.express and r.random() < 0.5:
+            a = "CreateStateMachine"
+        if a == "deliver" and not npending:
+            a = r.choice(["ListStateMachines", "write"])
+        return a
+
     def op(self, i, n, nstarts, npending):
         r = self.rng
-        x = r.random()
         body, tags = {}, []
-        early = i < max(2, n // 4)
-        # aim the history at states where the interesting actions can succeed
-        if not self.live and r.random() < 0.75:
-            x = 0.0
-        elif npending and r.random() < 0.25:
-            x = 0.70
-        elif self.execs and r.random() < 0.30:
-            x = r.choice([0.45, 0.85, 0.95, 0.95])
-        elif not self.execs and 0.42 <= x < 0.49 or x >= 0.91 and not self.execs:
-            if r.random() < 0.7:
-                x = 0.60
-        if x < (0.55 if early else 0.14):
-            a = "CreateStateMachine"
+        a = self.pick(i, n, npending)
+        if a == "deliver":
+            return {"op": "deliver", "k": r.randrange(npending)}, ["deliver"]
+        if a == "write":
+            arn = self.exarn(nstarts)
+            o = {"op": "write", "arn": arn}
+            which = r.random()
+            if which < 0.8:
+                o["record"] = self.record(arn)
+            if which > 0.25:
+                o["log"] = self.log()
+            return o, ["write", "record" if "record" in o else "-", "log=%d" % len(o["log"]) if "log" in o else "-"]
+        if a == "SendTask":
+            a = r.choice(LAW_ONLY)
+            tok = task_token() if r.random() < 0.5 else r.choice(SEND_TOKENS_BAD)
+            if r.random() < 0.9:
+                body["taskToken"] = tok
+            if a == "SendTaskSuccess":
+                if r.random() < 0.9:
+                    body["output"] = r.choice(["1", "{\"a\": 1}", "{bad", "", "[1"])
+            else:
+                body["error"] = r.choice(["E", "E", "x" * 257])
+                body["cause"] = r.choice(["c", "c", "y" * 32769])
+            return {"op": "call", "action": a, "body": body}, [a]
+        if a == "CreateStateMachine":
             tags.append("name=" + self.put(body, "name", lambda: r.choice(NAMES), BAD_NAMES, 0.03))
             tags.append("role=" + self.put(body, "roleArn", self.role, BAD_ROLES, 0.03))
             k = self.put(body, "definition", self.definition, DEF_TEXT_BAD + DEF_NONSTR, 0.03)
             tags.append("def=" + k)
+            if k == "ok" and body["definition"] in DEF_TEXT_DUP:
+                tags.append("def=duplicate-names")
+            if body.get("roleArn") == ROLES[-1]:
+                tags.append("role=long-account")
             if r.random() < 0.5:
                 tags.append("type=" + self.put(body, "type", lambda: r.choice(TYPES), BAD_TYPES, 0))
             if r.random() < 0.45:
                 tags.append("log=" + self.put(body, "loggingConfiguration",
                                               lambda: copy.deepcopy(r.choice(LOGCFG_OK)), LOGCFG_BAD, 0))
-        elif x < 0.30:
-            a = "UpdateStateMachine"
+        elif a == "UpdateStateMachine":
             tags.append("arn=" + self.put(body, "stateMachineArn", self.sm, BAD_SM_ARNS))
             which = r.random()
             if which < 0.75:
@@ -170,38 +293,39 @@ class Gen:
             if r.random() < 0.5:
                 tags.append("log=" + self.put(body, "loggingConfiguration",
                                               lambda: copy.deepcopy(r.choice(LOGCFG_OK)), LOGCFG_BAD, 0))
-        elif x < 0.35:
-            a = "DeleteStateMachine"
+        elif a in ("DeleteStateMachine", "DescribeStateMachine"):
             tags.append("arn=" + self.put(body, "stateMachineArn", self.sm, BAD_SM_ARNS))
-        elif x < 0.42:
-            a = "DescribeStateMachine"
-            tags.append("arn=" + self.put(body, "stateMachineArn", self.sm, BAD_SM_ARNS))
-        elif x < 0.49:
-            a = "DescribeStateMachineForExecution"
+        elif a in ("DescribeStateMachineForExecution", "DescribeExecution"):
             tags.append("arn=" + self.put(body, "executionArn", lambda: self.exarn(nstarts), BAD_EXEC_ARNS))
-        elif x < 0.53:
-            a = "ListStateMachines"
-            if r.random() < 0.3:
-                body["maxResults"] = 20
-        elif x < 0.67:
-            a = "StartExecution"
-            tags.append("arn=" + self.put(body, "stateMachineArn", self.sm, BAD_SM_ARNS))
+        elif a == "GetExecutionHistory":
+            tags.append("arn=" + self.put(body, "executionArn", lambda: self.exarn(nstarts, logs=True), BAD_EXEC_ARNS))
+            x = r.random()
+            if x < 0.35:
+                body["reverseOrder"] = True
+                tags.append("reverse=true")
+            elif x < 0.5:
+                body["reverseOrder"] = copy.deepcopy(r.choice(TRUTHY))
+                tags.append("reverse=truthy:" + type(body["reverseOrder"]).__name__)
+            elif x < 0.65:
+                body["reverseOrder"] = copy.deepcopy(r.choice(FALSY))
+                tags.append("reverse=falsy:" + type(body["reverseOrder"]).__name__)
+            else:
+                tags.append("reverse=absent")
+            self.paging(body, tags)
+        elif a == "ListStateMachines":
+            self.paging(body, tags)
+        elif a in ("StartExecution", "StartSyncExecution"):
+            sync = a == "StartSyncExecution"
+            tags.append("arn=" + self.put(body, "stateMachineArn", lambda: self.sm(express=sync), BAD_SM_ARNS))
             if r.random() < 0.8:
                 tags.append("name=" + self.put(body, "name", lambda: r.choice(EXEC_NAMES), BAD_NAMES, 0))
             if r.random() < 0.8:
                 tags.append("input=" + self.put(body, "input", lambda: r.choice(INPUT_OK), INPUT_BAD, 0))
-        elif x < 0.80:
-            if npending:
-                return {"op": "deliver", "k": r.randrange(npending)}, ["deliver"]
-            a = "ListStateMachines"
-        elif x < 0.91:
-            a = "ListExecutions"
+        elif a == "ListExecutions":
             tags.append("arn=" + self.put(body, "stateMachineArn", self.sm, BAD_SM_ARNS))
             if r.random() < 0.6:
                 tags.append("filter=" + self.put(body, "statusFilter", lambda: r.choice(FILTERS), BAD_FILTERS, 0))
-        else:
-            a = "DescribeExecution"
-            tags.append("arn=" + self.put(body, "executionArn", lambda: self.exarn(nstarts), BAD_EXEC_ARNS))
+            self.paging(body, tags)
         y = r.random()
         if y < 0.012:
             a = r.choice(BAD_ACTIONS)
@@ -214,15 +338,22 @@ class Gen:
             return {"op": "call", "action": a, "body": body, "frame": fr}, [a, "badframe"]
         if r.random() < 0.05:
             body["extra"] = r.choice([1, "x", None, [1], {"a": 1}])
-        return {"op": "call", "action": a, "body": body}, [a] + tags
+        o = {"op": "call", "action": a, "body": body}
+        if a in ("StartExecution", "StartSyncExecution"):
+            if r.random() < 0.04:
+                o["publish_fails"] = True
+                tags.append("broker=down")
+            if a == "StartSyncExecution":
+                o["sync"] = r.choice(["engine", "engine", "timeout"])
+                tags.append("sync=" + o["sync"])
+        return o, [a] + tags
 
     def sequence(self, n, runner):
         """generate a history while running it on one world, so that ARNs can be aimed at what exists;
         the operations that come out are concrete and are re-run unchanged on the other worlds"""
         ops, tags, nstarts = [], [], 0
         for i in range(n):
-            snap = runner.world.snapshot()
-            self.live, self.execs = sorted(snap["machines"]), sorted(snap["executions"])
+            self.see(runner.world.snapshot())
             o, t = self.op(i, n, nstarts, len(runner.world.pending))
             runner.step(i, o)
             ops.append(o)
@@ -260,6 +391,10 @@ class FakeUuid:
         return self.next
 
 
+class BrokerDown(Exception):
+    pass
+
+
 class Dispatcher:
     """records what the API / engine hand to the messaging layer; nothing is delivered by itself"""
 
@@ -267,10 +402,18 @@ class Dispatcher:
         self.state_engine = state_engine
         state_engine.event_dispatcher = self
         self.published, self.broadcasts = [], []
+        self.shared = {}              # id(event) -> use_shared_queue of the publish that handed it over
+        self.timeouts = {}            # id -> callback (armed timers; only StartSyncExecution arms one through the API)
+        self.ntimeout = 0
+        self.fail_publish = False
+        self.unacknowledged_messages = {}
         self.session = types.SimpleNamespace(is_open=lambda: True)
 
     def publish(self, item, **kw):
+        if self.fail_publish:
+            raise BrokerDown("publish refused")
         self.published.append(item)
+        self.shared[id(item)] = kw.get("use_shared_queue")
 
     def acknowledge(self, id):
         pass
@@ -279,7 +422,27 @@ class Dispatcher:
         self.broadcasts.append(subject)
 
     def set_timeout(self, callback, delay):
-        return None
+        self.ntimeout += 1
+        self.timeouts[self.ntimeout] = callback
+        return self.ntimeout
+
+    def clear_timeout(self, timeout_id):
+        self.timeouts.pop(timeout_id, None)
+
+
+class FakeMessage:
+    """stands in for the messaging layer's Message class in SendTaskSuccess / SendTaskFailure"""
+
+    def __init__(self, body=None, **kw):
+        self.body, self.kw = body, kw
+
+
+class FakeProducer:
+    def __init__(self):
+        self.sent = []
+
+    def send(self, message, **kw):
+        self.sent.append(message)
 
 
 _LOOP = None
@@ -299,8 +462,8 @@ class World:
     def __init__(self, frontend, validate_asl, tmp):
         from asl_workflow_engine import state_engine as se_mod
         from asl_workflow_engine import event_dispatcher as ed_mod
-        if not hasattr(ed_mod, "Message"):
-            ed_mod.Message = object
+        if getattr(ed_mod, "Message", object) is object:
+            ed_mod.Message = FakeMessage
         self.frontend, self.validate_asl = frontend, validate_asl
         self.clock, self.uuid = Clock(), FakeUuid()
         cfg = {"state_engine": {"store_url": os.path.join(tmp, "asl-%s-%s.json" % (frontend, validate_asl)),
@@ -310,6 +473,7 @@ class World:
         loop()
         self.engine = se_mod.StateEngine(cfg)
         self.disp = Dispatcher(self.engine)
+        self.engine.task_dispatcher.producer = FakeProducer()
         if frontend == "asyncio":
             from asl_workflow_engine import rest_api_asyncio as mod
         else:
@@ -323,7 +487,8 @@ class World:
             self.api.validate_asl = False
         self.app = self.api.create_app()
         self.client = self.app.test_client()
-        self.model_cfg = {"region": "local", "validateAsl": bool(validate_asl), "logging": frontend == "asyncio"}
+        self.model_cfg = {"region": "local", "validateAsl": bool(validate_asl), "logging": frontend == "asyncio",
+                          "quirks": []}
         self.nmsg = 0
 
     def activate(self):
@@ -338,32 +503,82 @@ class World:
         self.engine.executions.clear()
         self.engine.execution_history.clear()
         self.engine.branch_metadata.clear()
+        self.engine.task_dispatcher.pending_requests.clear()
+        self.engine.task_dispatcher.producer.sent.clear()
         self.disp.published.clear()
         self.disp.broadcasts.clear()
+        self.disp.shared.clear()
+        self.disp.timeouts.clear()
+        self.disp.fail_publish = False
         self.clock.now = 1000
         self.pending = []
 
     def snapshot(self):
         return {"machines": copy.deepcopy(dict(self.engine.asl_store.store)),
-                "executions": copy.deepcopy({k: dict(v) for k, v in self.engine.executions.items()})}
+                "executions": copy.deepcopy({k: dict(v) for k, v in self.engine.executions.items()}),
+                "histories": copy.deepcopy({k: list(v) for k, v in self.engine.execution_history.items()})}
 
-    def post(self, action, data, frame=None):
+    def post(self, action, data, frame=None, sync=None):
+        """→ (status, text, info); `sync` says how a StartSyncExecution that reaches its `await` is resolved:
+        "engine" = the real engine runs the events the request published (and what they publish in turn) until
+        the awaited future is set; "timeout" (and the fallback when the engine does not get there) = the timer
+        the request armed is fired"""
         frame = frame or {}
         ct = frame.get("ct", CT)
         target = frame.get("target", "AWSStepFunctions." + action)
         headers = {}
         if target is not None:
             headers["x-amz-target"] = target
+        info = {}
         if self.frontend == "asyncio":
             if ct is not None:
                 headers["Content-Type"] = ct
 
             async def go():
-                r = await self.client.post("/", data=data, headers=headers)
+                task = asyncio.ensure_future(self.client.post("/", data=data, headers=headers))
+                n0, t0 = len(self.disp.published), set(self.disp.timeouts)
+                for _ in range(200):
+                    if task.done():
+                        break
+                    await asyncio.sleep(0)
+                if not task.done():
+                    # the handler is waiting for the engine: StartSyncExecution after its publish
+                    info["awaited"] = True
+                    info["at_await"] = self.snapshot()
+                    mine = [t for t in self.disp.timeouts if t not in t0]
+                    if sync == "engine":
+                        todo = list(self.disp.published[n0:])
+                        steps = 0
+                        while todo and not task.done() and steps < 40:
+                            ev = todo.pop(0)
+                            steps += 1
+                            self.nmsg += 1
+                            n1 = len(self.disp.published)
+                            try:
+                                self.engine.notify(copy.deepcopy(ev), "msg-%d" % self.nmsg)
+                            except Exception as e:
+                                info["engine_raised"] = type(e).__name__
+                                break
+                            todo += self.disp.published[n1:]
+                            await asyncio.sleep(0)
+                        info["engine_steps"] = steps
+                    armed = [t for t in mine if t in self.disp.timeouts]     # the engine's answer disarms the timer
+                    if armed and not task.done():
+                        info["timer_fired"] = True
+                        for t in armed:
+                            self.disp.timeouts.pop(t)()
+                    for _ in range(200):
+                        if task.done():
+                            break
+                        await asyncio.sleep(0)
+                    # whatever the execution published belongs to this request's own (EXPRESS) execution: consumed here
+                    info["consumed"] = len(self.disp.published) - n0 - 1
+                r = await task
                 return r.status_code, (await r.get_data()).decode("utf8", "replace")
-            return loop().run_until_complete(go())
+            st, tx = loop().run_until_complete(go())
+            return st, tx, info
         r = self.client.post("/", data=data, headers=headers, content_type=ct)
-        return r.status_code, r.get_data().decode("utf8", "replace")
+        return r.status_code, r.get_data().decode("utf8", "replace"), info
 
     def deliver(self, k):
         """the engine picks a recorded event up (environment step)"""
@@ -463,60 +678,106 @@ def has_float(x):
     return False
 
 
+def store_lines(before, after):
+    """the engine's writes between two snapshots as keyed-store assignments, in order, each with the store
+    contents it is applied to"""
+    lines, cur = [], before
+    for k, v in after["executions"].items():
+        if before["executions"].get(k) != v:
+            lines.append("api\tengine\t%s\t%s\t%s" % (pj(cur), pj(k), pj(v)))
+            cur = dict(cur, executions=dict(cur["executions"], **{k: v}))
+    for k, v in after["histories"].items():
+        if before["histories"].get(k) != v:
+            lines.append("api\tlog\t%s\t%s\t%s" % (pj(cur), pj(k), pj(v)))
+            cur = dict(cur, histories=dict(cur["histories"], **{k: v}))
+    return lines
+
+
+def mask_detail(body):
+    """the execution detail an EXPRESS execution reports carries the real wall clock (StartTime is taken
+    from datetime.now, which is not virtualised)"""
+    if isinstance(body, dict) and isinstance(body.get("startDate"), float):
+        body = dict(body, startDate=0)
+    return body
+
+
 class Runner:
     """runs a history on the real system, one operation at a time"""
 
-    def __init__(self, world):
+    def __init__(self, world, quirks=None):
         self.world = world
         world.activate()
         world.reset()
+        world.model_cfg["quirks"] = sorted(ACTIVE_QUIRKS if quirks is None else quirks)
         self.steps = []
 
     def step(self, i, op):
         world = self.world
         world.clock.now += 7
         before = world.snapshot()
-        if op["op"] == "deliver":
-            exc = world.deliver(op["k"])
+        if op["op"] in ("deliver", "write"):
+            exc = None
+            if op["op"] == "deliver":
+                exc = world.deliver(op["k"])
+            else:
+                if "record" in op:
+                    world.engine.executions[op["arn"]] = copy.deepcopy(op["record"])
+                if "log" in op:
+                    world.engine.execution_history[op["arn"]] = copy.deepcopy(op["log"])
             after = world.snapshot()
-            lines = []
-            cur = before
-            for k, v in after["executions"].items():
-                if before["executions"].get(k) != v:
-                    lines.append(("api\tengine\t%s\t%s\t%s" % (pj(cur), pj(k), pj(v)), k))
-                    cur = {"machines": cur["machines"], "executions": dict(cur["executions"], **{k: v})}
+            lines = [] if (has_float(before) or has_float(after)) else store_lines(before, after)
             self.steps.append({"i": i, "op": op, "kind": "deliver", "before": before, "after": after,
                                "lines": lines, "exc": exc})
             return
         world.uuid.next = "uuid-%d" % i
         npub = len(world.disp.published)
         data = body_bytes(op)
-        status, text = world.post(op["action"], data, op.get("frame"))
+        world.disp.fail_publish = bool(op.get("publish_fails"))
+        try:
+            status, text, info = world.post(op["action"], data, op.get("frame"), op.get("sync"))
+        finally:
+            world.disp.fail_publish = False
         after = world.snapshot()
         pub = world.disp.published[npub:]
-        world.pending += pub
-        st = {"i": i, "op": op, "kind": "call", "before": before, "after": after,
-              "resp": impl_response(status, text), "published": [project_event(e) for e in pub]}
+        if info.get("awaited"):
+            pub = pub[:1]          # the rest is what the engine published while this request waited for it
+        else:
+            world.pending += pub
+        resp = impl_response(status, text)
+        if info.get("awaited") and "body" in resp:
+            resp["body"] = mask_detail(resp["body"])
+        st = {"i": i, "op": op, "kind": "call", "before": before, "after": after, "resp": resp, "info": info,
+              "published": [dict(project_event(e), shared=world.disp.shared.get(id(e))) for e in pub]}
+        if status == 200 and op["action"] == "CreateStateMachine" and isinstance(resp.get("body"), dict):
+            st["arn_ok"] = bool(world.mod.valid_state_machine_arn(resp["body"].get("stateMachineArn")))
         if "frame" in op:
             st["kind"] = "frame"
+        elif op["action"] in LAW_ONLY:
+            st["line"] = None
         else:
             isjson, params = parsed_params(op)
             call = {"action": op["action"]}
             if isjson:
                 call["params"] = params
             env = {"now": world.clock.now, "fresh": world.uuid.next,
-                   "lintBad": lint_bad(params) if (isjson and world.validate_asl) else False}
+                   "lintBad": lint_bad(params) if (isjson and world.validate_asl) else False,
+                   "publishFails": bool(op.get("publish_fails"))}
+            if info.get("awaited") and status == 200:
+                env["syncOutcome"] = resp.get("body")
             st["env"] = env
-            if has_float(before) or has_float(call):
+            if has_float(before) or has_float(call) or has_float(env):
                 st["line"] = None
             else:
                 st["line"] = "api\tstep\t%s\t%s\t%s\t%s" % (pj(world.model_cfg), pj(env), pj(before), pj(call))
         self.steps.append(st)
 
 
-def run_history(world, ops):
+ACTIVE_QUIRKS = []        # switches of the open findings (set by run / replay from findings/C10.json)
+
+
+def run_history(world, ops, quirks=None):
     """run one history on the real system; returns the per-step records (with model lines)"""
-    r = Runner(world)
+    r = Runner(world, quirks)
     for i, op in enumerate(ops):
         r.step(i, op)
     return r.steps
@@ -524,8 +785,20 @@ def run_history(world, ops):
 
 # --------------------------------------------------------------------------- comparison
 
+LAW_F5_CREATE = "CreateStateMachine answers 200 only with an ARN the other actions accept"
+LAW_F5_DESCRIBE = "a stored state machine is described back under its ARN"
+
+
 def classify(f, case, impl_out, model_out):
+    """is this failure exactly the open finding f?"""
+    if f["id"] == "C10-F5":
+        return case.get("law") in (LAW_F5_CREATE, LAW_F5_DESCRIBE) and \
+            (impl_out or {}).get("resp", {}).get("type", "InvalidArn") == "InvalidArn"
     return False
+
+
+def py_truthy(x):
+    return bool(x)
 
 
 def check_step(st, answer):
@@ -533,19 +806,27 @@ def check_step(st, answer):
     out = []
     resp, before, after = st["resp"], st["before"], st["after"]
     is_err = resp["status"] >= 400
+    op = st["op"]
+    action = op.get("action")
+    body = op.get("body") if isinstance(op.get("body"), dict) else {}
     # the laws the property states outright, on the implementation alone
-    if resp["status"] >= 500:
+    if resp["status"] >= 500 and not op.get("publish_fails"):
         out.append(("impl-violates-law", "no request is answered with an internal error",
                     {"resp": resp}, None))
     if is_err and cj(before) != cj(after):
         out.append(("impl-violates-law", "a request answered with an error leaves every stored record as it was",
                     {"resp": resp, "before": before, "after": after}, None))
-    if is_err and st["published"]:
-        out.append(("impl-violates-law", "a request answered with an error publishes nothing",
+    if is_err and resp["status"] != 408 and st["published"]:
+        out.append(("impl-violates-law", "a request that is refused publishes nothing",
                     {"resp": resp, "published": st["published"]}, None))
-    op = st["op"]
-    if resp["status"] == 200 and op.get("action") == "DescribeStateMachine" and isinstance(resp.get("body"), dict):
-        # described back unchanged: the text decodes to the stored value (the model proves text = render(value))
+    if action in READS and st["kind"] == "call" and cj(before) != cj(after):
+        out.append(("impl-violates-law", "a read leaves every stored record as it was",
+                    {"resp": resp, "before": before, "after": after}, None))
+    if st["info"].get("awaited") and cj(st["info"]["at_await"]) != cj(before):
+        out.append(("impl-violates-law", "a synchronous start has stored nothing when it starts to wait",
+                    {"resp": resp, "before": before, "at_await": st["info"]["at_await"]}, None))
+    if resp["status"] == 200 and action == "DescribeStateMachine" and isinstance(resp.get("body"), dict):
+        # described back unchanged: the text decodes to the stored value (the model proves the round trip)
         try:
             arn = resp["body"]["stateMachineArn"]
             same = json.loads(resp["body"]["definition"]) == before["machines"][arn]["definition"]
@@ -553,7 +834,10 @@ def check_step(st, answer):
             same = False
         if not same:
             out.append(("impl-violates-law", "a definition is described back unchanged", {"resp": resp}, None))
-    if resp["status"] == 200 and op.get("action") == "CreateStateMachine" and isinstance(resp.get("body"), dict):
+    if action == "DescribeStateMachine" and st["kind"] == "call" and resp["status"] != 200 and \
+            isinstance(body.get("stateMachineArn"), str) and body["stateMachineArn"] in before["machines"]:
+        out.append(("impl-violates-law", LAW_F5_DESCRIBE, {"resp": resp, "arn": body["stateMachineArn"]}, None))
+    if resp["status"] == 200 and action == "CreateStateMachine" and isinstance(resp.get("body"), dict):
         try:
             arn = resp["body"]["stateMachineArn"]
             same = after["machines"][arn]["definition"] == json.loads(op["body"]["definition"])
@@ -562,6 +846,30 @@ def check_step(st, answer):
         if not same:
             out.append(("impl-violates-law", "a created definition is stored as the value its text denotes",
                         {"resp": resp, "after": after}, None))
+        if st.get("arn_ok") is False:
+            out.append(("impl-violates-law", LAW_F5_CREATE, {"arn": resp["body"].get("stateMachineArn")}, None))
+    if resp["status"] == 200 and action == "GetExecutionHistory" and st["kind"] == "call" and \
+            isinstance(resp.get("body"), dict):
+        log = before["histories"].get(body.get("executionArn"))
+        want = None if not log else (log[::-1] if py_truthy(body.get("reverseOrder", False)) else log)
+        if want is None or resp["body"].get("events") != want or "nextToken" in resp["body"]:
+            out.append(("impl-violates-law", "GetExecutionHistory answers the stored event log, first event first — "
+                        "exactly reversed with reverseOrder", {"resp": resp, "log": log}, None))
+    if resp["status"] == 200 and action == "ListStateMachines" and st["kind"] == "call" and \
+            isinstance(resp.get("body"), dict):
+        got = [x.get("stateMachineArn") for x in resp["body"].get("stateMachines", [])]
+        if sorted(got) != sorted(before["machines"]) or "nextToken" in resp["body"]:
+            out.append(("impl-violates-law", "ListStateMachines enumerates exactly the live set",
+                        {"resp": resp, "live": sorted(before["machines"])}, None))
+    if resp["status"] == 200 and action == "ListExecutions" and st["kind"] == "call" and \
+            isinstance(resp.get("body"), dict) and ("statusFilter" not in body or body["statusFilter"] in FILTERS):
+        f = body.get("statusFilter")
+        want = sorted(k for k, v in before["executions"].items()
+                      if v["stateMachineArn"] == body.get("stateMachineArn") and (f is None or v["status"] == f))
+        got = sorted(x.get("executionArn") for x in resp["body"].get("executions", []))
+        if got != want or "nextToken" in resp["body"]:
+            out.append(("impl-violates-law", "ListExecutions enumerates exactly the live set (statusFilter applied)",
+                        {"resp": resp, "want": want}, None))
     if st["kind"] == "frame":
         if not (resp["status"] == 400 and "text" in resp):
             out.append(("impl-differs-from-spec", "a malformed frame is refused with a plain 400",
@@ -588,10 +896,9 @@ def check_step(st, answer):
 def check_deliver(st, answers):
     out = []
     cur = None
-    for (line, k), a in zip(st["lines"], answers):
-        if not a.startswith("ok\t"):
-            continue
-        cur = json.loads(a.split("\t", 1)[1])
+    for a in answers:
+        if a.startswith("ok\t"):
+            cur = json.loads(a.split("\t", 1)[1])
     if cur is not None and len(st["lines"]) and cj(cur) != cj(st["after"]) and \
             all(a.startswith("ok\t") for a in answers):
         out.append(("impl-differs-from-spec", "an engine write is a plain keyed-store assignment",
@@ -602,19 +909,19 @@ def check_deliver(st, answers):
     return out
 
 
-def evaluate(chk, world, ops, steps=None):
+def evaluate(chk, world, ops, steps=None, quirks=None):
     """run one history (unless already run) and collect the model lines"""
     if steps is None:
-        steps = run_history(world, ops)
+        steps = run_history(world, ops, quirks)
     lines, owners = [], []
     for st in steps:
         if st["kind"] == "call" and st.get("line"):
             lines.append(st["line"])
             owners.append((st, None))
         elif st["kind"] == "deliver":
-            for ln, k in st["lines"]:
+            for ln in st["lines"]:
                 lines.append(ln)
-                owners.append((st, k))
+                owners.append((st, None))
     return steps, lines, owners
 
 
@@ -703,38 +1010,142 @@ def keep_replay(chk):
             shutil.copy(src, os.path.join(KEEP, os.path.basename(src)))
 
 
+def directed_histories():
+    """fixed histories that reach every `__type` either front end can answer, both resolutions of a synchronous
+    start, the paging arguments, every status filter and the links of DescribeStateMachineForExecution"""
+    role, d = ROLES[0], json.dumps(PASS_END)
+    m1, x1, gone = sm_arn(ACCOUNTS[0], "m1"), sm_arn(ACCOUNTS[0], "m1-v2"), sm_arn(ACCOUNTS[0], "m")
+    e1 = ex_arn(ACCOUNTS[0], "m1", "e1")
+    call = lambda a, b, **kw: dict({"op": "call", "action": a, "body": b}, **kw)
+    h = [
+        call("CreateStateMachine", {"name": "m1", "roleArn": role, "definition": d}),
+        call("CreateStateMachine", {"name": "m1", "roleArn": role, "definition": d}),                 # AlreadyExists
+        call("CreateStateMachine", {"name": "a b", "roleArn": role, "definition": d}),                # InvalidName
+        call("CreateStateMachine", {"name": "z", "roleArn": "junk", "definition": d}),                # InvalidArn
+        call("CreateStateMachine", {"name": "z", "roleArn": role, "definition": "{bad"}),             # InvalidDefinition
+        call("CreateStateMachine", {"name": "z", "roleArn": role, "definition": "{}"}),               # MissingRequiredParameter
+        call("CreateStateMachine", {"name": "z", "roleArn": role, "definition": d, "type": "BAD"}),   # TypeNotSupported
+        call("CreateStateMachine", {"name": "z", "roleArn": role, "definition": d,
+                                    "loggingConfiguration": {"level": "BAD"}}),                        # InvalidLoggingConfiguration
+        call("CreateStateMachine", {"name": "m1-v2", "roleArn": role, "definition": d, "type": "EXPRESS"}),
+        call("DescribeStateMachine", {"stateMachineArn": sm_arn(ACCOUNTS[1], "nope")}),               # DoesNotExist
+        call("DescribeStateMachine", {}),
+        call("StartExecution", {"stateMachineArn": m1, "name": "e0", "input": "{bad"}),               # InvalidExecutionInput
+        call("StartExecution", {"stateMachineArn": m1, "name": "e0"}, publish_fails=True),            # InternalError (500)
+        call("StartExecution", {"stateMachineArn": m1, "name": "e1", "input": "{\"a\": 1}"}),
+        {"op": "deliver", "k": 0}, {"op": "deliver", "k": 0}, {"op": "deliver", "k": 0}, {"op": "deliver", "k": 0},
+        call("GetExecutionHistory", {"executionArn": e1}),
+        call("GetExecutionHistory", {"executionArn": e1, "reverseOrder": True, "maxResults": 1, "nextToken": "t"}),
+        call("GetExecutionHistory", {"executionArn": e1, "reverseOrder": "false"}),                  # a non-empty string is truthy
+        call("GetExecutionHistory", {"executionArn": e1, "reverseOrder": 0}),
+        call("GetExecutionHistory", {"executionArn": ex_arn(ACCOUNTS[0], "m1", "nope")}),             # ExecutionDoesNotExist
+        call("GetExecutionHistory", {"executionArn": m1}),                                            # InvalidArn
+        call("GetExecutionHistory", {"executionArn": ""}),                                            # Missing
+        call("DescribeExecution", {"executionArn": ex_arn(ACCOUNTS[0], "m1", "nope")}),
+        call("DescribeStateMachineForExecution", {"executionArn": e1}),
+        {"op": "call", "action": "DescribeExecution", "raw": "[1]"},                                  # SerializationException
+        call("ListStateMachines", {"maxResults": 1, "nextToken": "x"}),
+        call("ListStateMachines", {"maxResults": "many", "nextToken": [1]}),
+        call("ListExecutions", {"stateMachineArn": m1, "maxResults": 1}),
+        call("StartSyncExecution", {"stateMachineArn": m1, "name": "s0"}, sync="engine"),             # TypeNotSupported / InvalidAction
+        call("StartSyncExecution", {"stateMachineArn": x1, "name": "s1", "input": "[1]"}, sync="engine"),
+        call("StartSyncExecution", {"stateMachineArn": x1, "name": "s2"}, sync="timeout"),
+        call("StartSyncExecution", {"stateMachineArn": x1, "name": "s3"}, sync="engine", publish_fails=True),
+        call("StartSyncExecution", {"stateMachineArn": x1, "name": "a b"}, sync="engine"),
+        call("StartSyncExecution", {"stateMachineArn": gone, "name": "s4"}, sync="engine"),
+        call("SendTaskSuccess", {"taskToken": "junk", "output": "1"}),                                # InvalidToken
+        call("SendTaskSuccess", {"taskToken": task_token(), "output": "{bad"}),                       # InvalidOutput
+        call("SendTaskSuccess", {"taskToken": task_token()}),                                         # Missing
+        call("SendTaskSuccess", {"taskToken": task_token(), "output": "1"}),
+        call("SendTaskFailure", {"taskToken": task_token(), "error": "x" * 257, "cause": "c"}),       # ValidationError
+        call("SendTaskFailure", {"taskToken": task_token(), "error": "E", "cause": "c"}),
+    ]
+    for k, status in enumerate(STATUSES):
+        arn = ex_arn(ACCOUNTS[0], "m1", "w%d" % k)
+        h.append({"op": "write", "arn": arn, "log": [{"id": 1, "type": "ExecutionStarted", "previousEventId": 0, "timestamp": 1}],
+                  "record": {"executionArn": arn, "input": "{}", "name": "w%d" % k, "output": None, "startDate": 900,
+                             "stateMachineArn": m1, "status": status, "stopDate": None if status == "RUNNING" else 950}})
+    for status in STATUSES + ["BAD", None, 0]:
+        h.append(call("ListExecutions", {"stateMachineArn": m1, "statusFilter": status}))
+    h += [call("ListExecutions", {"stateMachineArn": m1, "maxResults": 1}),          # six executions, one page all the same
+          call("ListExecutions", {"stateMachineArn": m1, "maxResults": 0, "nextToken": "1"})]
+    orphan, odd, nolog = ex_arn(ACCOUNTS[0], "m", "o1"), ex_arn(ACCOUNTS[0], "m", "o2"), ex_arn(ACCOUNTS[0], "m1", "o3")
+    rec = lambda arn, sm: {"executionArn": arn, "input": None, "name": arn.rsplit(":", 1)[-1], "output": None,
+                           "startDate": 901, "stateMachineArn": sm, "status": "RUNNING", "stopDate": None}
+    h += [{"op": "write", "arn": orphan, "record": rec(orphan, gone)},
+          {"op": "write", "arn": odd, "record": rec(odd, "junk")},
+          {"op": "write", "arn": nolog, "record": rec(nolog, m1), "log": []},
+          call("DescribeStateMachineForExecution", {"executionArn": orphan}),                         # StateMachineDoesNotExist
+          call("DescribeStateMachineForExecution", {"executionArn": odd}),                            # InvalidArn (of the link)
+          call("GetExecutionHistory", {"executionArn": nolog}),                                       # an empty log is no log
+          call("GetExecutionHistory", {"executionArn": orphan}),
+          call("DeleteStateMachine", {"stateMachineArn": m1}),
+          call("DescribeStateMachineForExecution", {"executionArn": e1}),                             # the machine is gone
+          call("ListExecutions", {"stateMachineArn": m1}),
+          call("GetExecutionHistory", {"executionArn": e1, "reverseOrder": [0]})]                     # the log outlives it
+    return [h]
+
+
+def source_types(world):
+    """every `__type` the front end's source can answer (aws_error("X"…) call sites)"""
+    import inspect, re
+    return sorted(set(re.findall(r'aws_error\(\s*"(\w+)"', inspect.getsource(world.mod))))
+
+
 def process(chk, batches, counters):
     """one chunk: run on the real system (unless already run), ask the model, compare, report"""
     runs, all_lines = [], []
     for w, ops, tags, stream, pre in batches:
         steps, lines, owners = evaluate(chk, w, ops, pre)
-        runs.append((w, ops, tags, stream, steps, len(all_lines), len(lines)))
+        runs.append((w, ops, tags, stream, steps, len(all_lines), len(lines), pre is not None))
         all_lines += lines
     answers = common.driver(all_lines, shards=8)
-    for w, ops, tags, stream, steps, off, nl in runs:
+    for w, ops, tags, stream, steps, off, nl, first in runs:
         res = judge(steps, all_lines[off:off + nl], answers[off:off + nl])
         reported = set()
+        if first and tags:
+            # what the generator aimed at: argument variants and defects per action (counted once per history)
+            for t in tags:
+                for x in t[1:]:
+                    if "=" in x and not x.endswith("=ok"):
+                        a = t[0] if (t[0] in ACTIONS or t[0] in LAW_ONLY or t[0] == "write") else "(other action)"
+                        chk.dist("arg.%s.%s" % (a, x))
         for st, ds, how in res:
             op = st["op"]
             if st["kind"] == "deliver":
-                chk.dist("deliver" + (".engine_raised" if st.get("exc") else ""))
+                if op["op"] == "write":
+                    chk.dist("engine.write" + (".record" if "record" in op else "") + (".log" if "log" in op else ""))
+                else:
+                    chk.dist("engine.deliver" + (".engine_raised" if st.get("exc") else ""))
+                if not st["lines"] and cj(st["before"]) != cj(st["after"]):
+                    chk.dist("model.unsupported(engine write)")
                 chk.count("deliver|" + cj([st["before"], op]), bool(st["lines"]))
             else:
                 counters["requests"] += 1
                 resp = st["resp"]
-                lab = "%s.%s" % (op["action"] if op["action"] in ACTIONS else "(other action)",
-                                 resp.get("type") or ("ok" if resp["status"] == 200 else resp.get("text", "?")[:24]))
-                chk.dist(w.frontend + "." + lab)
+                known = op["action"] in ACTIONS or op["action"] in LAW_ONLY
+                outcome = resp.get("type") or ("ok" if resp["status"] == 200 else resp.get("text", "?")[:24])
+                chk.dist("%s.%s.%s" % (w.frontend, op["action"] if known else "(other action)", outcome))
+                if "type" in resp:
+                    chk.dist("type.%s.%s" % (w.frontend, resp["type"]))
+                    counters["types"].add((w.frontend, resp["type"]))
                 if st["kind"] == "frame":
                     chk.dist("malformed.frame")
                 elif "raw" in op:
                     chk.dist("malformed.body")
+                if op.get("publish_fails"):
+                    chk.dist("broker.down." + outcome)
+                info = st["info"]
+                if info.get("awaited"):
+                    chk.dist("sync." + ("timer" if info.get("timer_fired") else "engine") +
+                             (".engine_raised" if info.get("engine_raised") else "") + "." + str(resp["status"]))
                 if how not in ("ok", "frame"):
-                    chk.dist("model." + how)
+                    chk.dist("model." + ("law-only" if op["action"] in LAW_ONLY else how))
                 nontrivial = bool(st["before"]["machines"]) or resp["status"] == 200
                 chk.count("call|" + cj([world_key(w), st["before"], op]), nontrivial)
                 if resp["status"] == 200 and op["action"] in ("UpdateStateMachine", "DescribeStateMachineForExecution",
-                                                             "ListExecutions") and st["before"]["executions"]:
+                                                             "ListExecutions", "GetExecutionHistory",
+                                                             "StartSyncExecution") and st["before"]["executions"]:
                     chk.sample({"frontend": w.frontend, "request": op, "response": resp,
                                 "machines_before": sorted(st["before"]["machines"]),
                                 "executions_before": sorted(st["before"]["executions"])})
@@ -742,18 +1153,21 @@ def process(chk, batches, counters):
                 if law in reported:
                     continue
                 reported.add(law)
-                small = shrink(w, ops, st["i"], law) if chk.nreplay < 20 else ops[:st["i"] + 1]
-                case = dict(world_key(w), ops=small, stream=stream)
+                known = any(classify(f, {"law": law}, impl, model) for f in chk.open_findings)
+                small = shrink(w, ops, st["i"], law) if (chk.nreplay < 20 and not known) else ops[:st["i"] + 1]
+                case = dict(world_key(w), ops=small, stream=stream, law=law)
                 if chk.report(kind, case, impl=impl, model=model, law=law, classify=classify) == "violation":
                     keep_replay(chk)
 
 
 def run(chk):
+    global ACTIVE_QUIRKS
     logging.disable(logging.CRITICAL)
     quick = chk.tier == "quick"
     chk.lean_stage()
+    ACTIVE_QUIRKS = sorted(OPEN_QUIRK[f["id"]] for f in chk.open_findings if f["id"] in OPEN_QUIRK)
     tmp = tempfile.mkdtemp(prefix="c10-")
-    counters = {"requests": 0}
+    counters = {"requests": 0, "types": set()}
     if os.path.isdir(KEEP):
         for fn in os.listdir(KEEP):
             if fn.startswith("C10-"):
@@ -777,8 +1191,12 @@ def run(chk):
             for w in worlds[:2]:
                 batches.append((w, h, None, "boundary", None))
         chk.cov["streams"]["boundary"] = 2 * len(boundary_histories())
+        for h in directed_histories():
+            for w in worlds:
+                batches.append((w, h, None, "directed", None))
+        chk.cov["streams"]["directed"] = len(worlds) * len(directed_histories())
         process(chk, batches, counters)
-        nseq = 1500 if quick else 12000
+        nseq = 1300 if quick else 8000
         maxlen = 12 if quick else 40
         g = Gen(chk.rng)
         nrand = 0
@@ -800,24 +1218,42 @@ def run(chk):
         process(chk, batches, counters)
         chk.cov["streams"]["random_histories"] = nrand
         chk.cov["streams"]["requests"] = counters["requests"]
+        # generator quality: every `__type` a front end's source can answer was answered in this run
+        want = {(w.frontend, t) for w in worlds[:2] for t in source_types(w)}
+        missing = sorted(want - counters["types"])
+        chk.cov["types"] = {"answerable": len(want), "answered": len(want & counters["types"]),
+                            "not_answered": ["%s.%s" % m for m in missing]}
+        if missing:
+            raise common.InfraError("C10 generator: __type values never answered in this run: %s" % missing)
         chk.cov["rule"] = (
-            "histories of 4..%d operations (the nine actions, engine deliveries of recorded start events, unknown "
-            "actions, raw / non-object / non-UTF-8 bodies, bad frames) over 3 machine names x 2 accounts x 2 execution "
-            "names, ARNs aimed at what exists 4 times out of 5; every argument independently bad (name, ARN, JSON text, "
-            "JSON type, logging configuration, missing) with probability 3-25%%; each history on the blocking front end "
-            "and on the asyncio front end (validate_asl on for every fourth); every request is compared with Api.step "
-            "started from the implementation's own store contents; a request is non-trivial when the store is "
-            "non-empty or it succeeds; distinct = distinct (front end, store contents, request)" % maxlen)
+            "histories of 4..%d operations (the nine actions of the property, GetExecutionHistory with every kind of "
+            "reverseOrder value, StartSyncExecution resolved by the real engine or by its timer, ListStateMachines / "
+            "ListExecutions / GetExecutionHistory with arbitrary maxResults / nextToken, a refused publish, engine "
+            "deliveries of recorded start events, direct engine writes of execution records (all five statuses, dangling "
+            "and malformed machine links) and event logs (empty ones too), SendTask* judged by the stated laws only, "
+            "unknown actions, raw / non-object / non-UTF-8 bodies, bad frames) over 3 machine names x 3 accounts x 2 "
+            "execution names, ARNs aimed at what exists 4 times out of 5; every argument independently bad (name, ARN, "
+            "JSON text, duplicate member names, JSON type, logging configuration, missing) with probability 3-25%%; each "
+            "history on the blocking front end and on the asyncio front end (validate_asl on for every fourth); every "
+            "request is compared with Api.step started from the implementation's own store contents, every engine write "
+            "with a keyed-store assignment; a request is non-trivial when the store is non-empty or it succeeds; "
+            "distinct = distinct (front end, store contents, request); distribution keys: <front end>.<action>.<answer>, "
+            "type.<front end>.<__type>, arg.<action>.<argument>=<variant / what is wrong with it>, sync.*, broker.down.*, "
+            "engine.*" % maxlen)
         chk.cov["exhaustive"] = False
-        chk.assumptions.append("C10: the wall clock, uuid4 and the statelint verdict are inputs of the reference model "
-                               "(patched / measured from outside); engine deliveries are environment steps; HTTP framing, "
-                               "threads of the blocking front end and a failing message publish (the documented 500) are not modelled")
+        chk.assumptions.append("C10: the wall clock, uuid4, the statelint verdict, the broker's verdict on a publish and the "
+                               "engine's answer to a synchronous start are inputs of the reference model (patched / measured / "
+                               "decided from outside); engine deliveries and direct store writes are environment steps; HTTP "
+                               "framing and threads of the blocking front end are not modelled; SendTaskSuccess / SendTaskFailure "
+                               "have no reference model here (C15) and are sent with string-typed arguments only")
     finally:
         shutil.rmtree(tmp, ignore_errors=True)
 
 
 def replay(chk, path):
+    global ACTIVE_QUIRKS
     logging.disable(logging.CRITICAL)
+    ACTIVE_QUIRKS = sorted(OPEN_QUIRK[f["id"]] for f in chk.open_findings if f["id"] in OPEN_QUIRK)
     if not os.path.exists(path) and os.path.exists(os.path.join(KEEP, os.path.basename(path))):
         path = os.path.join(KEEP, os.path.basename(path))
     with open(path) as f:
